@@ -98,6 +98,40 @@ func (c *conditionLocker) waitIfLock() {
 	c.lockMu.Unlock()
 }
 
+// pendingCounter counts the requests that are being written to the connection.
+// A token renewal waits for it to drop to zero. Unlike a sync.WaitGroup it may
+// be incremented from zero while another goroutine is still waiting, which
+// happens whenever requests are sent while a renewal starts.
+type pendingCounter struct {
+	mu  sync.Mutex
+	cnd *sync.Cond
+	n   int
+}
+
+func (p *pendingCounter) Add(delta int) {
+	p.mu.Lock()
+	p.n += delta
+	if p.n <= 0 && p.cnd != nil {
+		p.cnd.Broadcast()
+	}
+	p.mu.Unlock()
+}
+
+func (p *pendingCounter) Done() {
+	p.Add(-1)
+}
+
+func (p *pendingCounter) Wait() {
+	p.mu.Lock()
+	if p.cnd == nil {
+		p.cnd = sync.NewCond(&p.mu)
+	}
+	for p.n > 0 {
+		p.cnd.Wait()
+	}
+	p.mu.Unlock()
+}
+
 type SecureChannel struct {
 	endpointURL string
 
@@ -129,7 +163,7 @@ type SecureChannel struct {
 	// prevent sending msg when secure channel renewal occurs
 	reqLocker  *conditionLocker
 	rcvLocker  *conditionLocker
-	pendingReq sync.WaitGroup
+	pendingReq pendingCounter
 
 	// handles maps requestIDs to response channels
 	handlers   map[uint32]chan *MessageBody
